@@ -94,6 +94,7 @@ class GenCfg:
     loner: bool = False              # an extra host thread with ONE childless operator that outlasts everything else
     p_overhang: float = 0.0          # an operator ends 1-2 us BEFORE its last child (timer glitch: not properly nested any more)
     p_nested_annotation: float = 0.0 # a child slot of an operator becomes a user annotation that wraps further operators
+    same_tid_process: bool = False   # the first extra host thread belongs to ANOTHER process and has the same tid as the main thread
     python_functions: bool = False   # interpreter frames (cat python_function, profiles taken with stacks) spanning some host operators
     tie_sync: bool = False           # the main thread ends with one kernel per stream, all ending at the same instant, and a device sync
     pad_entries: int = 0             # that many metadata entries right after the first file entry: event ids (file positions) get large
@@ -460,6 +461,10 @@ def gen_rank(rng: random.Random, cfg: GenCfg, rank: int) -> RankTrace:
     first_host = None
     _run_threads(threads)
     events = sim.ev
+    if cfg.same_tid_process and cfg.n_extra_threads >= 1:
+        for e in events:
+            if e["pid"] == sim.pid and e["tid"] == main_tid + 2:
+                e["pid"], e["tid"] = sim.pid + 500, main_tid
     lo = min(e["ts"] for e in events)
     hi = max(e["ts"] + e["dur"] for e in events)
     if cfg.loner:
